@@ -53,7 +53,7 @@ fn gen(rng: &mut Rng, _sub: u64) -> Workload {
 }
 
 fn opts(rng: &mut Rng, _sub: u64) -> SimOpts {
-    SimOpts { io_enabled: rng.chance(3, 4), step_cap: 20_000, max_in_flight: 4, gate_first: !rng.chance(1, 6), observe_all: false }
+    SimOpts { io_enabled: rng.chance(3, 4), step_cap: 20_000, max_in_flight: 4, gate_first: !rng.chance(1, 6), observe_all: false, reference: false }
 }
 
 pub fn last_version(wl: &Workload) -> i32 {
@@ -156,6 +156,7 @@ pub const DEF: PropDef = PropDef {
     probes,
     droppable,
     well_formed,
+    deviation_signature: true,
     rule: "one evaluation = one simulated run of the real ServerState: a seeded client script (didOpen, then 2-8 of didChange/didSave/requests) delivered by a tower-lsp-like dispatcher (<=4 handlers in flight, FIFO first poll) while a seeded scheduler interleaves handler segments, compile-worker segments (every shared-state access and every abort point is a scheduling point) and batches of queued file I/O; distinct+non-trivial = distinct decision traces (sequence of chosen action and site)",
     components_real: &["sway_lsp::ServerState and all handlers", "compile worker thread", "sway-core / forc-pkg compilation", "crossbeam channel", "tokio Notify", "tokio::fs on a 1-thread blocking pool", "SyncWorkspace temp dirs", "PidLockedFiles"],
     components_stub: &["JSON-RPC transport and tower-lsp router (dispatcher model)", "LSP client (client: None)", "entropy (seeded shim)", "ps (fake, liveness table)"],
